@@ -25,7 +25,7 @@ var checkSpecs = map[string]*checkSpec{
 		}, kcpStateAssumptions...),
 		stubs: commonStubs,
 		bounds: map[string]string{
-			"quick":    "L1: Send of 0..7 symbolic bytes with MSS 1..3, stream and message mode, from 3 shapes, and of 254..300 bytes at MSS 1 (fragment limit); L2: full flush from 3 shapes, every emitted PUSH decoded independently and compared with the in-flight segment it names; L4: Recv with buffers 0,1,2,8 from 4 receive shapes with symbolic fragment numbers; S3 scenario: two real endpoints, MSS 2, two writes (3+1 symbolic bytes), stream and message mode, windows {1,3}x{1,2}, symbolic origins of both sequence spaces and the clock, every fate in {drop, deliver, duplicate, delay one round} for the first 4 datagrams (thorough 6) then a fair network, <= 40 rounds: reader sees a prefix at every step, everything delivered intact, backlog drains",
+			"quick":    "L1: Send of 0..7 symbolic bytes with MSS 1..3, stream and message mode, from 3 shapes, and of 254..300 bytes at MSS 1 (fragment limit); L2: full flush from 3 shapes, every emitted PUSH decoded independently and compared with the in-flight segment it names; L4: Recv with buffers 0,1,2,8 from 4 receive shapes with symbolic fragment numbers; L6: UDPSession.Read over 1-2 delivered messages (1 or 5 bytes) with up to 5 reads of 1/3/16 bytes (every split between pending remainder, delivery queue and caller buffer), UDPSession.WriteBuffers of a 2-element vector (0..7 + 0..6 bytes) at MSS 3, stream and message mode; S3 scenario: two real endpoints, MSS 2, two writes (3+1 symbolic bytes), stream and message mode, windows {1,3}x{1,2}, symbolic origins of both sequence spaces and the clock, every fate in {drop, deliver, duplicate, delay one round} for the first 4 datagrams (thorough 6) then a fair network, <= 40 rounds: reader sees a prefix at every step, everything delivered intact, backlog drains",
 			"thorough": "same",
 		},
 		outside: "real sockets and goroutine scheduling; ciphers (C08) and FEC arithmetic (C07) are separate modules; payloads longer than 7 bytes",
@@ -105,7 +105,7 @@ var checkSpecs = map[string]*checkSpec{
 		assumptions: []string{"pre-states through the public path; FEC (2,1); session MTU 100 so that maximal payloads stay small"},
 		stubs:       append([]string{"net.PacketConn/net.Addr -> harness types (WriteTo records, ReadFrom scripted or parked)", "hash/crc32.ChecksumIEEE -> chained uninterpreted function of the bytes", "cipher.AEAD -> documented Seal/Open contract over uninterpreted keystream/tag functions (native replay: real AES-GCM)", "fillRand -> fresh tagged symbolic bytes per call", "go statements are recorded, not run: postProcess is driven by the harness until it blocks (vfRunUntilBlocked); SystemTimedSched replaced by an inert scheduler", "reedsolomon -> abstract MDS codec"}, commonStubs...),
 		bounds: map[string]string{
-			"quick":    "cipher {nil, none-class, AEAD}; payload lengths {0,1,max-1,max,max+1} with symbolic bytes: refused iff oversize or FEC off; the datagram produced by the real postProcess, fed to the real Listener.packetInput, calls the handler exactly once with exactly the payload; encoder sequence id / shard count / max size, both KCP cores and the FEC decoder have empty write sets; a full post-processing queue drops and recycles once",
+			"quick":    "cipher {nil, none-class, AEAD}; payload lengths {0,1,max-1,max,max+1} with symbolic bytes: refused iff oversize or FEC off; the datagram produced by the real postProcess, fed to the real Listener.packetInput, calls the handler exactly once with exactly the payload; encoder sequence id / shard count / max size, both KCP cores and the FEC decoder have empty write sets; a full post-processing queue drops and recycles once; an OOB message carrying another conversation id (payload 0..40, cipher nil / none-class) arriving from the address of an existing session never reaches that session's handler",
 			"thorough": "same",
 		},
 		outside: "rates (per-call non-blocking argument only); handler on the dialled side is the same kcpInput code path",
@@ -114,7 +114,7 @@ var checkSpecs = map[string]*checkSpec{
 		assumptions: []string{"entropy quality is outside the claim: nonces are 'fresh' when they come from distinct fillRand calls", "README layout: [nonce16|crc32 4] or [nonce12|sealed], [seqid4|type2|size2], 24-byte little-endian headers + len bytes"},
 		stubs:       append([]string{"net.PacketConn/net.Addr -> harness types (WriteTo records, ReadFrom scripted or parked)", "hash/crc32.ChecksumIEEE -> chained uninterpreted function of the bytes", "cipher.AEAD -> documented Seal/Open contract over uninterpreted keystream/tag functions (native replay: real AES-GCM)", "fillRand -> fresh tagged symbolic bytes per call", "go statements are recorded, not run: postProcess is driven by the harness until it blocks (vfRunUntilBlocked); SystemTimedSched replaced by an inert scheduler", "reedsolomon -> abstract MDS codec"}, commonStubs...),
 		bounds: map[string]string{
-			"quick":    "two 3-byte writes through a real session for cipher {nil, none-class, AEAD} x FEC {off,(2,1)}: every datagram on the stub socket is parsed by an independent decoder written from the README (CRC over exactly the rest, FEC id/type/size, KCP headers), the written bytes are reassembled from the wire alone, nonces pairwise from distinct fillRand calls (parity included); segment.encode vs the independent decoder is exercised on every emitted datagram of the C04/C10 flush harnesses; encoder id/type invariants: C07 harnesses",
+			"quick":    "segment.encode vs the independent decoder for fully symbolic fields and payload 0..3, and the real Input on what the independent encoder writes; two 3-byte writes through a real session for cipher {nil, none-class, AEAD} x FEC {off,(2,1)}: every datagram on the stub socket is parsed by an independent decoder written from the README (CRC over exactly the rest, FEC id/type/size, KCP headers), the written bytes are reassembled from the wire alone, nonces pairwise from distinct fillRand calls (parity included); segment.encode vs the independent decoder is exercised on every emitted datagram of the C04/C10 flush harnesses; encoder id/type invariants: C07 harnesses",
 			"thorough": "same",
 		},
 		outside: "statistical quality of the entropy source; retransmission datagrams at session level (core level: C04 flush harnesses decode every emitted datagram)",
@@ -204,7 +204,7 @@ var checkSpecs = map[string]*checkSpec{
 		},
 		stubs: append([]string{"reedsolomon -> abstract MDS codec", "sort.Slice -> insertion sort calling the real less closure symbolically"}, commonStubs...),
 		bounds: map[string]string{
-			"quick":    "stability and detection: one decode step with a fully symbolic sequence id for (d,p) in {(1,1),(2,1),(2,2),(3,2)}; period detector: windows of 3..6 consecutive ids each present 0/1/2 times (all 3^n patterns), both insertion orders, every phase, symbolic start id, senders as above; clean windows of 2S+2 with fresh and wrapped (258-entry) sample ring; adoption+recovery for 4 sender/receiver pairs at positions 0, ~10^6, 2^31 over 4 groups",
+			"quick":    "stability and detection: one decode step with a fully symbolic sequence id for (d,p) in {(1,1),(2,1),(2,2),(3,2)}; period detector: windows of 3..6 consecutive ids each present 0/1/2 times (all 3^n patterns), both insertion orders, every phase, symbolic start id, senders as above; clean windows of 2S+2 with fresh and wrapped (258-entry) sample ring, and for (10,3),(20,10),(128,127),(254,1),(1,254) at 5 boundary phases (for d+p=255 the 258-entry window cannot hold 2S+2 samples: only "never a wrong ratio" is asserted there); adoption+recovery for 4 sender/receiver pairs at positions 0, ~10^6, 2^31 over 4 groups",
 			"thorough": "windows up to 8, ratios up to (4,2)",
 		},
 		outside: "the literal 258+2(d+p) packet count for every d+p <= 255 under arbitrary pre-convergence faults; ratios with d+p > 6",
